@@ -45,7 +45,7 @@ func (C14) Explore(x *kernel.Explorer, seed uint64) {
 			if r.Chance(1, 8) {
 				f.Kind = "tiny-length"
 			} else if r.Chance(1, 6) {
-				f.Kind, f.Site = "inject", c14Streams[0]
+				f.Kind = "inject"
 			} else if r.Chance(1, 8) {
 				f.Kind = "ones-field"
 			} else if r.Chance(1, 8) {
